@@ -24,6 +24,10 @@ def obligations(tier):
                      encodes=["ABT_barrier_wait", "ABTI_waitlist_wait_and_unlock", "ABTI_waitlist_broadcast", "ABTI_ythread_suspend_unlock", "ABTI_ythread_callback_suspend_unlock", "ABTI_ythread_resume_and_push", "ABTD_futex_wait_and_unlock", "ABTD_futex_broadcast"],
                      bounds="n <= 3, <= 1 caller parked before the focus, 1 environment step per scheduling point, <= 3 while parked", symbolic="n, arrivals so far, placement and kind of every environment step",
                      timeout=600 if tier == "thorough" else 200))
+    o.append(Obl("xstream_barrier_tag_impl", "C08/xbarrier_tag.c", "ABT_xstream_barrier_wait, sense-reversal (tag) implementation compiled where pthread barriers are missing -- NOT the configuration /repo is built in (HAVE_PTHREAD_BARRIER_INIT undefined in the harness): one real wait as focus, the other streams' arrivals (the completing one a real call) at every atomic access and every poll: nobody leaves before all n entered, counter reset and tag advanced once, a spinning waiter gets out once the round is complete",
+                 defs=["VR_SP_HARNESS"], unwind=5, cut_loops=SPIN, backend="cadical", no_std=["--pointer-overflow-check"],
+                 encodes=["ABT_xstream_barrier_wait (#ifndef HAVE_PTHREAD_BARRIER_INIT branch)"], bounds="n in 2..3 streams, any initial tag, <=3 polls of the spin loop (cut by assumption), <=2 arrivals per scheduling point",
+                 symbolic="n, arrivals so far, initial tag, placement of the other arrivals"))
     o.append(Obl("create_reinit_xstream", "C08/misc.c", "ABT_barrier_create/reinit/get_num_waiters/free for EVERY uint32 count pair (reinit larger, smaller, zero) and ABT_xstream_barrier_create/wait/free wrapper over the native barrier",
                  unwind=3, backend="cadical", encodes=["ABT_barrier_create", "ABT_barrier_reinit", "ABT_barrier_get_num_waiters", "ABT_barrier_free", "ABT_xstream_barrier_create", "ABT_xstream_barrier_wait", "ABT_xstream_barrier_free"],
                  bounds="single call sequence; counts: any uint32", symbolic="waiter counts"))
